@@ -4,3 +4,6 @@ import sched_checks
 CHECKS = {}
 for p in ("C01", "C02", "C03", "C04", "C05", "C15"):
     CHECKS[p] = sched_checks.run
+
+import c14_check
+CHECKS["C14"] = c14_check.run
